@@ -24,7 +24,7 @@ INFONAMES = ['e', 'x.trashinfo', 'new\nline', '.hidden', 'a b', '-rf', '', '.', 
 CRAFTED = ('', '.', '..')  # info files '.trashinfo', '..trashinfo', '...trashinfo': no payload can exist
 CMDS = ['empty', 'empty-days', 'rm-star', 'rm-exact', 'empty-trash-dir', 'rm-abs', 'empty+unlink-refused', 'rm-star+unlink-refused', 'empty+rmdir-refused', 'empty-verbose', 'empty-days-vv', 'empty-dry-run-v']
 NCMD = len(CMDS)
-VIA = ['direct', 'symlinked-trash-dir', 'symlinked-files-dir']
+VIA = ['direct', 'symlinked-trash-dir', 'symlinked-files-dir', 'explicit-through-a-link-and-dotdot']
 
 
 def payload_nodes(pk, path):
@@ -60,6 +60,7 @@ def _case(pk, iname, cmd, via):
     with rt.untraced():
         rt.begin((PAYLOADS[pk], INFONAMES[iname], CMDS[cmd], VIA[via]))
         name = INFONAMES[iname]
+        c0 = CMDS[cmd]
         nodes = [W.d('/h'), W.f('/v/keep', 'KEEP', 0o644, 800), W.d('/v/w'), W.f('/v/w/e', 'LIVE', 0o644, 801)] + K.sentinels('/v/out')
         nodes += [W.f('/v/out/tdir/sub/deep', 'D', 0o644, 906)]
         v = VIA[via]
@@ -67,6 +68,15 @@ def _case(pk, iname, cmd, via):
         if v == 'symlinked-trash-dir':
             real_td = '/v/realtrash'
             nodes.append(W.l('/v/.Trash-1000', 'realtrash', 950))
+        spelled = None
+        if v == 'explicit-through-a-link-and-dotdot':
+            # --trash-dir /v/out/hop/../T with hop -> /v/deep/inner: for the kernel that is /v/deep/T; a lexical
+            # normalisation makes it /v/out/T, another directory (here: one that has files/ and info/ of its own)
+            if not c0.startswith('empty'):
+                return rt.ok()  # (trash-rm has no --trash-dir)
+            real_td, spelled = '/v/deep/T', '/v/out/hop/../T'
+            nodes += [W.d('/v/deep/inner'), W.l('/v/out/hop', '/v/deep/inner', 953)]
+            nodes += K.trashed('/v/out/T', 'e', 'w/e', '2019-01-01T00:00:00', 'file', 3340) + K.trashed('/v/out/T', 'zz', 'w/zz', '2019-01-01T00:00:00', 'dir', 3360)
         nodes += [W.d(real_td, 0o700), W.d(real_td + '/info', 0o700)]
         files_dir = real_td + '/files'
         if v == 'symlinked-files-dir':
@@ -109,6 +119,8 @@ def _case(pk, iname, cmd, via):
             step = C('rm', ['*'], scen.env(), cwd='/v')
         else:
             step = C('empty', ['--trash-dir', '/v/.Trash-1000'], scen.env(), cwd='/v')
+        if spelled is not None:
+            step = dict(step, args=[a for a in step['args'] if a not in ('--trash-dir', '/v/.Trash-1000')] + ['--trash-dir', spelled])
         hook = None
         if c.endswith('unlink-refused'):
             # one entry inside the trashed tree cannot be unlinked (read-only directory, non-root user): EACCES once
@@ -151,15 +163,15 @@ def _case(pk, iname, cmd, via):
 def w_main(pk: int, iname: int, cmd: int, via: int) -> str:
     """
     pre: PARTITION is None or pk == PARTITION
-    pre: 0 <= pk < 11 and 0 <= iname < 9 and 0 <= cmd < NCMD and 0 <= via < 3
+    pre: 0 <= pk < 11 and 0 <= iname < 9 and 0 <= cmd < NCMD and 0 <= via < 4
     post: _ == ''
     """
-    return _case(rt.sel(pk, 11), rt.sel(iname, 9), rt.sel(cmd, NCMD), rt.sel(via, 3))
+    return _case(rt.sel(pk, 11), rt.sel(iname, 9), rt.sel(cmd, NCMD), rt.sel(via, 4))
 
 
 def obligations(tier):
     return kpair.obligations(tier) + [
         CH('W_payload_x_name_x_cmd_x_via', MOD, 'w_main', timeout=900, partitions=list(range(11)), engine='W', regime='selector',
            encodes=K.EMPTY_FUNCS + K.RM_FUNCS + ['RealRemoveFile2.remove_file2', 'shutil.rmtree (CPython source over the model)'],
-           stubs=K.STUBS, bounds='11 payload shapes x 9 info names (incl. crafted .trashinfo, ..trashinfo, ...trashinfo) x 12 commands (incl. -v / -vv / --dry-run -v, one refused unlink/rmdir inside the trashed tree) x 3 ways of reaching the trash dir'),
+           stubs=K.STUBS, bounds='11 payload shapes x 9 info names (incl. crafted .trashinfo, ..trashinfo, ...trashinfo) x 12 commands (incl. -v / -vv / --dry-run -v, one refused unlink/rmdir inside the trashed tree) x 4 ways of reaching the trash dir (incl. --trash-dir spelled through a symlink and ..)'),
     ]
